@@ -299,3 +299,13 @@ func (x *Exec) do(name string, f func()) bool {
 	x.Sim.Run(nil)
 	return done
 }
+
+// harnessTasksDone reports whether every harness task has finished.
+func (x *Exec) harnessTasksDone() bool {
+	for _, t := range x.Sim.Tasks() {
+		if !t.Daemon && t.State != verifsim.StDone {
+			return false
+		}
+	}
+	return true
+}
